@@ -56,7 +56,15 @@ func c06Basic(c *core.Ctx) {
 	for _, m := range matches {
 		for _, a := range m.Args {
 			d := f
-			if o := c06Obj(f, a); o != nil {
+			root := ast.Unparen(a)
+			for {
+				if sel, ok := root.(*ast.SelectorExpr); ok {
+					root = ast.Unparen(sel.X) // creds.userID: the variable holding a result struct
+					continue
+				}
+				break
+			}
+			if o := c06Obj(f, root); o != nil {
 				ast.Inspect(f.Body, func(n ast.Node) bool {
 					as, ok := n.(*ast.AssignStmt)
 					if !ok || len(as.Rhs) != 1 {
